@@ -46,6 +46,8 @@ func main() {
 		res = runCoord(a)
 	case "k8s":
 		res = runK8s(a)
+	case "sidecar":
+		res = runSidecar(a)
 	default:
 		fmt.Fprintln(os.Stderr, "unknown engine", a.engine)
 		os.Exit(2)
